@@ -285,6 +285,8 @@ class Ctx:
     def _model_dict(self, m):
         out = {}
         for name, c in self.symbols.items():
+            if "#" in name or "!" in name:
+                continue  # engine-generated fresh symbols (block-argument denotations ...): not inputs of the contract
             v = m.eval(c, model_completion=True)
             try:
                 if z3.is_bool(c):
